@@ -25,6 +25,14 @@ Theorem C13_ec_in_range : forall t ops, wf t -> ecs_in_range t = true -> ecs_in_
 Proof. intros t ops W R. apply run_keeps; assumption. Qed.
 Print Assumptions C13_ec_in_range.
 
+(* S5F5 is never aborted: one row per requested ALID in request order — the current ALCD (bit 8 = set) and ALTX of an alarm that
+   exists, the zero-length ALCD/ALTX of E5 for one that does not *)
+Theorem C13_s5f5_lists_requested : forall t ids, ids <> [] ->
+  exists rows, snd (ed_step t (DListAlarms ids)) = DAlarms rows /\ map (fun r => fst (fst r)) rows = ids /\
+    forall k, In k ids -> In (match rlookup k (alarms t) with Some a => (k, alcd a, al_text a) | None => (k, NO_ALCD, ""%string) end) rows.
+Proof. exact list_alarms_rows. Qed.
+Print Assumptions C13_s5f5_lists_requested.
+
 (* non-vacuity *)
 Definition tab1 : dtab :=
   {| svs := [(IdN 10, {| sv_name := "a"; sv_unit := "mm"; sv_value := 5 |}); (IdS "sx", {| sv_name := "b"; sv_unit := ""; sv_value := 7 |})];
